@@ -14,6 +14,7 @@ from .poolfam import PoolFacts, chunking_idiom, queue_call, tag_pass_through
 
 
 def run(prog: Program, rep: Report):
+    _PROG[0] = prog
     from .poolfam import pool_facts
     pf = pool_facts(prog, rep, "C01.R13")
     rep.count("consumers", len(pf.consumers))
@@ -587,6 +588,25 @@ def r9_call_local(prog, rep: Report, pf: PoolFacts, rule: str):
 
 
 # ---------------------------------------------------------------------------------------------- R10
+def _traversed_twice_on_a_path(f: Func, param: str) -> bool:
+    """several `for ... in param` sites are one traversal each when they sit on different paths (a fast path that returns, the arms
+    of an if): decided by the one-shot typestate (sa/rules/oneshot.py) instead of by counting sites"""
+    from ..absint import Interp
+    from .oneshot import _OneShot
+    prog = _PROG[0]
+    if prog is None:
+        return True
+    client = _OneShot({param})
+    it = Interp(prog, client)
+    it.run(f, {frozenset()}, f.cls)
+    if it.unrecognised:
+        return True
+    return bool(client.double)
+
+
+_PROG = [None]
+
+
 def param_used_only_for_iteration(f: Func, param: str, allowed_call_targets: Set[str]) -> List[str]:
     """uses of ``param`` other than: being iterated once, being passed on to an allowed callee, being stored in a field"""
     probs = []
@@ -612,7 +632,7 @@ def param_used_only_for_iteration(f: Func, param: str, allowed_call_targets: Set
         if isinstance(p, ast.Starred):
             continue
         probs.append(f"`{src(p) if p is not None else param}` uses the input other than by iterating it")
-    if iters > 1:
+    if iters > 1 and _traversed_twice_on_a_path(f, param):
         probs.append(f"the input `{param}` is traversed {iters} times")
     return probs
 
